@@ -1,0 +1,73 @@
+//go:build verif
+
+package fasthttp
+
+// Thin exports for the /verif correspondence harnesses (properties C09 and C08):
+// the raw parsed state of request / response heads and the secureErrorLogMessage switch.
+
+// VerifKV is one stored header line.
+type VerifKV struct{ K, V []byte }
+
+// VerifReqHead is the state RequestHeader holds after Read.
+type VerifReqHead struct {
+	Method, URI, Proto, Host, CT, UA, CLBytes, Raw []byte
+	NoHTTP11, Close                                bool
+	CL                                             int
+	H                                              []VerifKV
+	Trailer                                        [][]byte
+}
+
+func verifKVs(a []argsKV) []VerifKV {
+	out := make([]VerifKV, 0, len(a))
+	for i := range a {
+		out = append(out, VerifKV{K: append([]byte(nil), a[i].key...), V: append([]byte(nil), a[i].value...)})
+	}
+	return out
+}
+
+func verifCopyAll(t [][]byte) [][]byte {
+	out := make([][]byte, 0, len(t))
+	for _, x := range t {
+		out = append(out, append([]byte(nil), x...))
+	}
+	return out
+}
+
+// VerifReqHeadState copies the unexported fields of h.
+func VerifReqHeadState(h *RequestHeader) VerifReqHead {
+	return VerifReqHead{
+		Method: append([]byte(nil), h.method...), URI: append([]byte(nil), h.requestURI...),
+		Proto: append([]byte(nil), h.protocol...), Host: append([]byte(nil), h.host...),
+		CT: append([]byte(nil), h.contentType...), UA: append([]byte(nil), h.userAgent...),
+		CLBytes:  append([]byte(nil), h.contentLengthBytes...),
+		Raw:      append([]byte(nil), h.rawHeaders...),
+		NoHTTP11: h.noHTTP11, Close: h.connectionClose, CL: h.contentLength,
+		H: verifKVs(h.h), Trailer: verifCopyAll(h.trailer),
+	}
+}
+
+// VerifRespHead is the state ResponseHeader holds after Read.
+type VerifRespHead struct {
+	StatusCode                                int
+	StatusMsg, Proto, CT, CE, Server, CLBytes []byte
+	NoHTTP11, Close                           bool
+	CL                                        int
+	H, Cookies                                []VerifKV
+	Trailer                                   [][]byte
+}
+
+// VerifRespHeadState copies the unexported fields of h.
+func VerifRespHeadState(h *ResponseHeader) VerifRespHead {
+	return VerifRespHead{
+		StatusCode: h.statusCode, StatusMsg: append([]byte(nil), h.statusMessage...),
+		Proto: append([]byte(nil), h.protocol...), CT: append([]byte(nil), h.contentType...),
+		CE: append([]byte(nil), h.contentEncoding...), Server: append([]byte(nil), h.server...),
+		CLBytes:  append([]byte(nil), h.contentLengthBytes...),
+		NoHTTP11: h.noHTTP11, Close: h.connectionClose, CL: h.contentLength,
+		H: verifKVs(h.h), Cookies: verifKVs(h.cookies), Trailer: verifCopyAll(h.trailer),
+	}
+}
+
+// VerifSetSecureErrReq / VerifSetSecureErrResp set secureErrorLogMessage (normally set by Server / Client).
+func VerifSetSecureErrReq(h *RequestHeader, v bool)   { h.secureErrorLogMessage = v }
+func VerifSetSecureErrResp(h *ResponseHeader, v bool) { h.secureErrorLogMessage = v }
